@@ -157,6 +157,10 @@ func genC14(t *rapid.T) C14Case {
 	if c.Flow != "BuildAuthURL" && c.Flow != "AuthRedirect" && rapid.IntRange(0, 2).Draw(t, "arbitraryDoc") == 0 {
 		c.DocKind, c.DocXML = "arbitrary", genArbitraryDoc(t)
 	}
+	if rapid.IntRange(0, 9).Draw(t, "failingSigner") == 0 {
+		// whichever key signs, it cannot (HSM / KMS unavailable): an error is fine, an unsigned URL is not
+		c.SP.Sig.FailSign, c.SP.Enc.FailSign = true, true
+	}
 	return c
 }
 
@@ -181,6 +185,7 @@ func rawInflate(b []byte) ([]byte, error) {
 
 func checkC14(c C14Case) h.Outcome {
 	o := h.Outcome{}
+	failSign := c.SP.Sig.FailSign || c.SP.Enc.FailSign
 	needsEsc := strings.IndexFunc(c.Relay, func(r rune) bool { return strings.IndexRune(unreserved, r) < 0 }) >= 0
 	o.NonTrivial = needsEsc || len(c.Query) > 0 || c.SP.SignAlg != "" || !(c.SP.Enc.Mode == "tls" && c.SP.Sig.None())
 	o.Classes = []string{"flow:" + c.Flow, "doc:" + c.DocKind, fmt.Sprintf("query:%d", len(c.Query)), fmt.Sprintf("relayEmpty:%v", c.Relay == ""), fmt.Sprintf("relayNeedsEscaping:%v", needsEsc),
@@ -204,6 +209,10 @@ func checkC14(c C14Case) h.Outcome {
 		doc, err = sp.BuildAuthRequestDocumentNoSig()
 	case c.Flow == "BuildAuthURLFromDocument":
 		doc, err = sp.BuildAuthRequestDocument()
+	}
+	if err != nil && failSign {
+		o.Classes = append(o.Classes, "failing-signer:document-error")
+		return o // a key that cannot sign may make a builder fail; it must never yield an unsigned or half-signed URL
 	}
 	if err != nil {
 		o.Violation = h.V("build-error", "%v", err)
@@ -236,9 +245,16 @@ func checkC14(c C14Case) h.Outcome {
 		got, err = sp.BuildLogoutURLRedirect(c.Relay, doc)
 		signed = true
 	}
+	if err != nil && failSign {
+		o.Classes = append(o.Classes, "failing-signer:url-error")
+		return o
+	}
 	if err != nil {
 		o.Violation = h.V("url-build-error/"+c.Flow, "%v", err)
 		return o
+	}
+	if failSign {
+		o.Classes = append(o.Classes, "failing-signer:url-returned")
 	}
 	o.Classes = append(o.Classes, fmt.Sprintf("querySigned:%v", signed))
 	// ---- endpoint kept
